@@ -246,3 +246,192 @@ def existUniqueCertVars (progs : List (List Dag × Dag)) (e u : Box) (vars : Lis
 
 end Newton
 end Ibex
+
+namespace Ibex
+
+/-! ## rounding-generic versions of the certificates
+
+  The certificates above evaluate everything with outward-rounded binary64 interval arithmetic
+  (`Itv.add`, `Itv.mul`, ...).  On boxes that are only a few ulps wide the rounding errors of the test
+  itself are as large as the box and the (true) claim is not certified.  Below, the same algorithms
+  with the interval operators generic in the rounding pair `r : Rnd` (IbexModel/ItvG.lean);
+  `Rnd.exact` = exact rational interval arithmetic (sharp), `Rnd.dbl` = the rounded arithmetic.
+  Sound for every sound rounding pair (IbexProofs/Props/C09exact.lean). -/
+
+namespace Itv
+/-- integer power with the generic operators; `x^k = 1 / x^(−k)` for `k < 0` -/
+def powIntG (r : Rnd) (x : Itv) (k : Int) : Itv :=
+  if k ≥ 0 then powNatG r x k.toNat else divG r (point 1) (powNatG r x (-k).toNat)
+end Itv
+
+/-- intervals with the operators generic in the rounding pair (rational operators only);
+    `Alg.itvG Rnd.exact` is `Alg.itvX` -/
+def Alg.itvG (r : Rnd) : Alg Itv where
+  ofItv x := itvNonEmpty x
+  zero := Itv.point 0
+  add a b := itvNonEmpty (Itv.addG r a b)
+  sub a b := itvNonEmpty (Itv.subG r a b)
+  mul a b := itvNonEmpty (Itv.mulG r a b)
+  div a b := itvNonEmpty (Itv.divG r a b)
+  max a b := itvNonEmpty (Itv.max a b)
+  min a b := itvNonEmpty (Itv.min a b)
+  un op := match op with
+    | "minus" => some fun a => itvNonEmpty (Itv.neg a)
+    | "sqr" => some fun a => itvNonEmpty (Itv.sqrG r a)
+    | "abs" => some fun a => itvNonEmpty (Itv.abs a)
+    | "sign" => some fun a => itvNonEmpty (Itv.sign a)
+    | "floor" => some fun a => itvNonEmpty (Itv.floor a)
+    | "ceil" => some fun a => itvNonEmpty (Itv.ceil a)
+    | _ => none
+  pow a n := itvNonEmpty (Itv.powIntG r a n)
+  chi a b c :=
+    match a with
+    | .empty => none
+    | .mk al ah =>
+      if Ext.le ah (.fin 0) then itvNonEmpty b else if Ext.lt (.fin 0) al then itvNonEmpty c
+      else itvNonEmpty (Itv.hull b c)
+
+namespace IDual
+/-- a·x.g + b·y.g -/
+def linG (r : Rnd) (a : Itv) (x : IDual) (b : Itv) (y : IDual) : List Itv :=
+  List.zipWith (fun p q => Itv.addG r (Itv.mulG r a p) (Itv.mulG r b q)) x.g y.g
+def scaleG (r : Rnd) (a : Itv) (x : IDual) : List Itv := x.g.map (Itv.mulG r a)
+end IDual
+
+/-- interval forward-mode differentiation, operators generic in the rounding pair
+    (`Alg.idual n` with `Itv.add`, ... replaced by `Itv.addG r`, ...) -/
+def Alg.idualG (r : Rnd) (n : Nat) : Alg IDual where
+  ofItv x := if x.isEmpty || !x.WF then none else some (IDual.const n x)
+  zero := IDual.const n (Itv.point 0)
+  add a b := IDual.ok ⟨Itv.addG r a.v b.v, IDual.linG r (Itv.point 1) a (Itv.point 1) b⟩
+  sub a b := IDual.ok ⟨Itv.subG r a.v b.v, IDual.linG r (Itv.point 1) a (Itv.point (-1)) b⟩
+  mul a b := IDual.ok ⟨Itv.mulG r a.v b.v, IDual.linG r b.v a a.v b⟩
+  div a b :=
+    if Itv.containsExt b.v (.fin 0) then none else
+    IDual.ok ⟨Itv.divG r a.v b.v,
+      IDual.linG r (Itv.divG r (Itv.point 1) b.v) a (Itv.neg (Itv.divG r a.v (Itv.sqrG r b.v))) b⟩
+  max _ _ := none
+  min _ _ := none
+  un op := match op with
+    | "minus" => some fun a => IDual.ok ⟨Itv.neg a.v, IDual.scaleG r (Itv.point (-1)) a⟩
+    | "sqr" => some fun a => IDual.ok ⟨Itv.sqrG r a.v, IDual.scaleG r (Itv.mulG r (Itv.point 2) a.v) a⟩
+    | _ => none
+  pow a k :=
+    if k = 0 then IDual.ok ⟨Itv.point 1, IDual.scaleG r (Itv.point 0) a⟩
+    else if k = 1 then some a
+    else if k > 0 then
+      IDual.ok ⟨Itv.powIntG r a.v k,
+        IDual.scaleG r (Itv.mulG r (Itv.point (k : Rat)) (Itv.powIntG r a.v (k - 1))) a⟩
+    else if Itv.containsExt a.v (.fin 0) then none
+    else IDual.ok ⟨Itv.powIntG r a.v k,
+        IDual.scaleG r (Itv.mulG r (Itv.point (k : Rat)) (Itv.powIntG r a.v (k - 1))) a⟩
+  chi _ _ _ := none
+
+namespace Newton
+
+/-- interval Jacobian (generic rounding) of the scalar DAGs over the box `h` (rows = functions) -/
+def jacobianG (r : Rnd) (progs : List (List Dag × Dag)) (h : Box) : Option (List (List Itv)) :=
+  let n := h.length
+  let env := h.zipIdx.map fun (q : Itv × Nat) =>
+    (⟨q.1, (List.range n).map fun j => if j == q.2 then Itv.point 1 else Itv.point 0⟩ : IDual)
+  progs.mapM fun (p : List Dag × Dag) =>
+    match Eval.root (Alg.idualG r n) env (Eval.buildCalls (Alg.idualG r n) p.1) p.2 with
+    | some m => (match m.d with | [d] => if d.g.length == n then some d.g else none | _ => none)
+    | none => none
+
+/-- C · [J] (generic rounding) -/
+def precondG (r : Rnd) (c : List (List Rat)) (j : List (List Itv)) : List (List Itv) :=
+  let n := j.length
+  c.map fun crow =>
+    (List.range n).map fun col =>
+      (List.zip crow j).foldl (fun acc (q : Rat × List Itv) =>
+        Itv.addG r acc (Itv.mulG r (Itv.point q.1) (q.2.getD col .empty))) (Itv.point 0)
+
+/-- uniqueness certificate, generic rounding (see `uniqueCertVars`) -/
+def uniqueCertVarsG (r : Rnd) (progs : List (List Dag × Dag)) (h : Box) (vars : List Nat) : Bool :=
+  progs.length == vars.length && !Box.isEmpty h && vars.all (· < h.length) &&
+  match jacobianG r progs h with
+  | none => false
+  | some jfull =>
+    let j := jfull.map fun row => vars.map fun v => row.getD v .empty
+    match (j.mapM fun row => row.mapM midRat) with
+    | none => false
+    | some mid =>
+      match inverse mid with
+      | none => false
+      | some c => diagDominant (precondG r c j)
+
+/-- interval evaluation (natural extension, generic rounding) of a scalar function over a box -/
+def evalItv1G (r : Rnd) (p : List Dag × Dag) (b : Box) : Option Itv :=
+  match Eval.root (Alg.itvG r) b (Eval.buildCalls (Alg.itvG r) p.1) p.2 with
+  | some v => (match v.d with | [d] => some d | _ => none)
+  | none => none
+
+/-- Σ_k q_k · [x_k] -/
+def dotQG (r : Rnd) (crow : List Rat) (xs : List Itv) : Itv :=
+  (List.zip crow xs).foldl (fun acc (q : Rat × Itv) => Itv.addG r acc (Itv.mulG r (Itv.point q.1) q.2))
+    (Itv.point 0)
+
+/-- Σ_k [a_k] · [b_k] -/
+def dotIG (r : Rnd) (a b : List Itv) : Itv :=
+  (List.zip a b).foldl (fun acc (q : Itv × Itv) => Itv.addG r acc (Itv.mulG r q.1 q.2)) (Itv.point 0)
+
+/-- I − C·[J] -/
+def iterMatG (r : Rnd) (c : List (List Rat)) (j : List (List Itv)) : List (List Itv) :=
+  (precondG r c j).zipIdx.map fun (row : List Itv × Nat) =>
+    row.1.zipIdx.map fun (e : Itv × Nat) => Itv.subG r (Itv.point (if e.2 == row.2 then 1 else 0)) e.1
+
+/-- existence certificate (Krawczyk operator), generic rounding (see `existCertVars`) -/
+def existCertVarsG (r : Rnd) (progs : List (List Dag × Dag)) (h : Box) (vars : List Nat) : Bool :=
+  progs.length == vars.length && !Box.isEmpty h && vars.all (· < h.length) && nodupB vars &&
+  match jacobianG r progs h with
+  | none => false
+  | some jfull =>
+    let j := jfull.map fun row => vars.map fun v => row.getD v .empty
+    match (j.mapM fun row => row.mapM midRat) with
+    | none => false
+    | some mid =>
+      match inverse mid with
+      | none => false
+      | some c =>
+        leftInvOk mid c vars.length &&
+        match vars.mapM (fun v => boundsQ (h.getD v .empty)) with
+        | none => false
+        | some bnds =>
+          let xm := bnds.map fun (ab : Rat × Rat) => (ab.1 + ab.2) / 2
+          match progs.mapM (fun p => evalItv1G r p (midBox h vars xm)) with
+          | none => false
+          | some fm =>
+            let mm := iterMatG r c j
+            let rad := List.zipWith (fun v x => Itv.subG r (h.getD v .empty) (Itv.point x)) vars xm
+            mm.all rowSumLt1 &&
+            ((List.range vars.length).all fun i =>
+              Itv.subset
+                (Itv.addG r (Itv.subG r (Itv.point (xm.getD i 0)) (dotQG r (c.getD i []) fm))
+                  (dotIG r (mm.getD i []) rad))
+                (h.getD (vars.getD i 0) .empty))
+
+/-- existence in `e`, uniqueness in `u ⊇ e` (generic rounding) -/
+def existUniqueCertVarsG (r : Rnd) (progs : List (List Dag × Dag)) (e u : Box) (vars : List Nat) : Bool :=
+  existCertVarsG r progs e vars && uniqueCertVarsG r progs u vars && Box.subset e u
+
+/-- a search cell `c` dropped in favour of a reported solution `e` (generic rounding, see `replaceCert`) -/
+def replaceCertG (r : Rnd) (progs : List (List Dag × Dag)) (c e : Box) (vars : List Nat) : Bool :=
+  c.length == e.length &&
+  ((List.range c.length).all fun i => vars.contains i ||
+      (match c[i]?, e[i]? with | some ci, some ei => Itv.subset ci ei | _, _ => false)) &&
+  uniqueCertVarsG r progs (Box.hull c e) vars
+
+/-! the certificates with EXACT rational interval arithmetic -/
+
+def jacobianX : List (List Dag × Dag) → Box → Option (List (List Itv)) := jacobianG Rnd.exact
+def existCertVarsX : List (List Dag × Dag) → Box → List Nat → Bool := existCertVarsG Rnd.exact
+def uniqueCertVarsX : List (List Dag × Dag) → Box → List Nat → Bool := uniqueCertVarsG Rnd.exact
+def existUniqueCertVarsX : List (List Dag × Dag) → Box → Box → List Nat → Bool := existUniqueCertVarsG Rnd.exact
+def replaceCertX : List (List Dag × Dag) → Box → Box → List Nat → Bool := replaceCertG Rnd.exact
+/-- square case: all coordinates are variables -/
+def existCertX (progs : List (List Dag × Dag)) (h : Box) : Bool := existCertVarsX progs h (List.range h.length)
+def uniqueCertX (progs : List (List Dag × Dag)) (h : Box) : Bool := uniqueCertVarsX progs h (List.range h.length)
+
+end Newton
+end Ibex
